@@ -70,9 +70,13 @@ fn parse_file(tokens: &mut [RawToken]) -> Vec<LogicalLine> {
     let mut lines = FxHashMap::default();
     let mut attributed_directives = FxHashSet::default();
     for pass_tokens in tree.passes() {
+        #[cfg(pasfmt_verif)]
+        crate::verif::op(crate::verif::ParserOp::PassStart(pass_tokens.clone()));
         let pass_lines =
             InternalDelphiLogicalLineParser::new(tokens, &pass_tokens, &mut attributed_directives)
                 .parse();
+        #[cfg(pasfmt_verif)]
+        crate::verif::op(crate::verif::ParserOp::PassEnd);
         /*
             This pass over the tokens ensures that their consolidated token type
             is cemented after the first run that encounters them.
@@ -788,6 +792,8 @@ impl<'a, 'b> InternalDelphiLogicalLineParser<'a, 'b> {
         }
         // To add tokens to the last child line, it must be the `current_line`
         self.current_line.push(self.last_finished_line);
+        #[cfg(pasfmt_verif)]
+        crate::verif::op(crate::verif::ParserOp::PushLast);
 
         let line_was_empty = self.is_at_start_of_line();
 
@@ -805,6 +811,8 @@ impl<'a, 'b> InternalDelphiLogicalLineParser<'a, 'b> {
         self.context.pop();
 
         self.current_line.pop();
+        #[cfg(pasfmt_verif)]
+        crate::verif::op(crate::verif::ParserOp::PopLast);
     }
 
     fn parse_comment_lines(&mut self) {
@@ -1230,6 +1238,13 @@ impl<'a, 'b> InternalDelphiLogicalLineParser<'a, 'b> {
             });
             self.current_line.push(new_logical_line);
             self.last_finished_line = new_logical_line;
+            #[cfg(pasfmt_verif)]
+            if let Some(p) = context_parent {
+                crate::verif::op(crate::verif::ParserOp::PushLine(
+                    p.line_index,
+                    p.global_token_index,
+                ));
+            }
         } else {
             self.finish_logical_line();
         }
@@ -1240,6 +1255,8 @@ impl<'a, 'b> InternalDelphiLogicalLineParser<'a, 'b> {
 
         if context_parent.is_some() {
             self.current_line.pop();
+            #[cfg(pasfmt_verif)]
+            crate::verif::op(crate::verif::ParserOp::PopLine);
         }
     }
     fn parse_parens(&mut self) {
@@ -1782,7 +1799,11 @@ impl<'a, 'b> InternalDelphiLogicalLineParser<'a, 'b> {
         while self.get_current_token_type().is_some()
             && !predicate(self)
             && self.context.get_ending_context_idx(self).is_none()
-            && matches!(next_token_op(self), OpResult::Continue)
+            && {
+                #[cfg(pasfmt_verif)]
+                crate::verif::op(crate::verif::ParserOp::Loop(0, self.pass_index));
+                matches!(next_token_op(self), OpResult::Continue)
+            }
         {}
     }
 
@@ -1794,12 +1815,16 @@ impl<'a, 'b> InternalDelphiLogicalLineParser<'a, 'b> {
         let line_ref = self.get_current_logical_line_ref();
         self.current_line_is_unfinished = true;
         self.unfinished_comment_lines.push(line_ref);
+        #[cfg(pasfmt_verif)]
+        crate::verif::op(crate::verif::ParserOp::MarkUnfinished);
         self.finish_logical_line();
     }
 
     fn finish_logical_line(&mut self) {
         if self.is_at_start_of_line() {
             self.get_current_logical_line_mut().line_type = LLT::Unknown;
+            #[cfg(pasfmt_verif)]
+            crate::verif::op(crate::verif::ParserOp::FinishEmpty);
             return;
         }
 
@@ -1812,6 +1837,11 @@ impl<'a, 'b> InternalDelphiLogicalLineParser<'a, 'b> {
             self.pass_index += 1;
         }
         let (parent, context_level) = self.get_context_level();
+        #[cfg(pasfmt_verif)]
+        crate::verif::op(crate::verif::ParserOp::Finish(
+            parent.map(|p| (p.line_index, p.global_token_index)),
+            context_level,
+        ));
 
         if !self.current_line_is_unfinished {
             for unfinished_line in self.unfinished_comment_lines.drain(..).collect_vec() {
@@ -1871,9 +1901,13 @@ impl<'a, 'b> InternalDelphiLogicalLineParser<'a, 'b> {
     }
     fn set_logical_line_type(&mut self, line_type: LogicalLineType) {
         self.get_current_logical_line_mut().line_type = line_type;
+        #[cfg(pasfmt_verif)]
+        crate::verif::op(crate::verif::ParserOp::SetType(format!("{:?}", line_type)));
     }
 
     fn next_token(&mut self) {
+        #[cfg(pasfmt_verif)]
+        crate::verif::op(crate::verif::ParserOp::Next);
         loop {
             if let Some(token_index) = self.get_current_token_index() {
                 self.get_current_logical_line_mut().tokens.push(token_index);
@@ -1902,6 +1936,8 @@ impl<'a, 'b> InternalDelphiLogicalLineParser<'a, 'b> {
     }
 
     fn skip_token(&mut self) {
+        #[cfg(pasfmt_verif)]
+        crate::verif::op(crate::verif::ParserOp::Skip);
         self.pass_index += 1;
     }
 
